@@ -24,7 +24,7 @@ structure PxInst where
     number of handler ids handed out -/
 structure PxExt where
   objs : List (String × PxInst) := []
-  ops  : List (Nat × String × PxCb) := []
+  ops  : List (Nat × String × PxCb × Nat) := []      -- handler id ↦ (object, callback, session bound)
   next : Nat := 0
 
 structure ExtSt where
